@@ -491,6 +491,40 @@ func checkC16(r *Result) {
 		}
 		r.check(len(sites) >= 1, "COHORT", "(x/bridge/keeper.Keeper).EncodeAndHashValidatorSet # collects one power per validator", "-", fmt.Sprint(len(sites)))
 	}
+	// the records of one checkpoint are stored together: no success path writes some of them and returns
+	for _, spec := range []struct {
+		fn   string
+		sets []string
+		what string
+	}{
+		{"(x/bridge/keeper.Keeper).CalculateValidatorSetCheckpoint", []string{"ValidatorCheckpointParamsMap", "ValidatorCheckpointIdxMap", "LatestCheckpointIdx", "ValsetTimestampToIdxMap"}, "params, index -> timestamp, latest index and timestamp -> index are all stored"},
+		{"(x/bridge/keeper.Keeper).SetBridgeValidatorParams", []string{"ValidatorCheckpoint", "BridgeValsetByTimestampMap", "BridgeValsetSignaturesMap"}, "the checkpoint, the set by timestamp and the empty signature slots are all stored"},
+	} {
+		fn := P.Func(spec.fn)
+		if fn == nil {
+			r.broken("anchor %s does not resolve", spec.fn)
+			continue
+		}
+		var atoms []Atom
+		for _, c := range spec.sets {
+			atoms = append(atoms, Atom{Name: c, Event: P.CallEvent(descIs("coll:x/bridge/keeper.Keeper."+c+".Set"), T)})
+		}
+		sets := spec.sets
+		requireAtSuccess(r, "COHORT", fn, spec.what, atoms, func(v map[string]bool) bool {
+			for _, c := range sets {
+				if !v[c] {
+					return false
+				}
+			}
+			return true
+		})
+	}
+	if fn := P.Func("(x/bridge/keeper.Keeper).CompareAndSetBridgeValidators"); fn != nil {
+		requireAtSuccess(r, "COHORT", fn, "the saved set and its checkpoint are written together", []Atom{
+			{Name: "set", Event: P.CallEvent(descIs("coll:x/bridge/keeper.Keeper.BridgeValset.Set"), T)},
+			{Name: "params", Event: P.CallEvent(func(c *CallSite) bool { return c.Callee == "(x/bridge/keeper.Keeper).SetBridgeValidatorParams" }, T)},
+		}, func(v map[string]bool) bool { return v["set"] == v["params"] })
+	}
 	r.minCount("MEMBERSHIP", 3)
 	r.minCount("UPDATE-RULE", 5)
 	r.minCount("COHORT", 7)
